@@ -14,7 +14,16 @@
 (* Threads: one modifier (Load / Modify / Refresh / first single-threaded  *)
 (* battery), a set of Readers running consulting calls on the shared       *)
 (* topology, and a set of Indep threads each running an independent        *)
-(* init / load / modify / export / destroy history on a private topology.  *)
+(* history of calls on private topologies.  Every call of the alphabet of  *)
+(* Registry.tla (RegOps: topology init / dup / shmem adopt, destroy, shmem *)
+(* get_length / write, the four diff XML functions, each succeeding or     *)
+(* failing) is a sequence of registry steps under the mutex - its          *)
+(* footprint, e.g. IInit ; body ; IFini for a call that takes and releases *)
+(* the registry without owning a topology.  With Balance = TRUE only the   *)
+(* footprints allowed by the balance law are taken and RegistryOK is an    *)
+(* invariant; with Balance = FALSE a call of net effect 0 may take a       *)
+(* broken return path (a fini without init, an init never given back) and  *)
+(* TLC must find the interference (non-vacuity of RegistryOK).             *)
 (*                                                                         *)
 (* A consulting call is  Begin -> (write section | read section) -> End :  *)
 (* when the cache is invalid the call REFRESHES it, i.e. writes shared     *)
@@ -26,15 +35,22 @@
 (***************************************************************************)
 EXTENDS Registry, FiniteSets, Sequences, TLC
 
-CONSTANTS Readers, Indep, NDist, NAttr, NEnv, Discipline, MaxModify
+CONSTANTS Readers, Indep, NDist, NAttr, NEnv, Discipline, MaxModify,
+          MaxLive,     \* bound on the topologies one independent thread owns at a time
+          Balance      \* TRUE: every return path obeys the balance law of Registry.tla
 
 VARIABLES mstate,      \* modifier: "init" | "loaded" | "dirty" (modified, not refreshed) | "reading"
           distValid, attrValid, envChecked,
           rpc,         \* reader program counter: [Readers -> <<"idle"|"done"|"r"|"w", kind, index>>]
           nmod,        \* number of Modify steps so far (bound)
           users, registered, lock,
-          ipc          \* independent threads: "new" | "initlock" | "live" | "finilock" | "gone"
-vars == <<mstate, distValid, attrValid, envChecked, rpc, nmod, users, registered, lock, ipc>>
+          ipc,         \* independent threads: "idle" (between calls) | "want" (in a call, next registry step pending) | "in" (holds the mutex)
+          ifp,         \* remaining registry steps (deltas) of the call in progress
+          inet,        \* net effect of the call in progress on the number of topologies the thread owns
+          iheld,       \* registry references the thread holds (its RegInit steps minus its RegFini steps)
+          ilive        \* topologies the thread owns
+ivars == <<ipc, ifp, inet, iheld, ilive>>
+vars == <<mstate, distValid, attrValid, envChecked, rpc, nmod, users, registered, lock, ivars>>
 
 Dists == 1..NDist   Attrs == 1..NAttr   Envs == 1..NEnv
 \* reader program counter values: <<state, kind, index>>
@@ -49,7 +65,8 @@ Init ==
   /\ rpc = [r \in Readers |-> Idle]
   /\ nmod = 0
   /\ users = 0 /\ registered = FALSE /\ lock = Free
-  /\ ipc = [i \in Indep |-> "new"]
+  /\ ipc = [i \in Indep |-> "idle"] /\ ifp = [i \in Indep |-> <<>>] /\ inet = [i \in Indep |-> 0]
+  /\ iheld = [i \in Indep |-> 0] /\ ilive = [i \in Indep |-> 0]
 
 (* ---------------- modifier ---------------- *)
 \* load (and the first single-threaded run of the consulting battery) validates every cache and consults every environment variable
@@ -57,24 +74,24 @@ Load == /\ mstate = "init"
         /\ mstate' = "loaded"
         /\ distValid' = [d \in Dists |-> TRUE] /\ attrValid' = [a \in Attrs |-> TRUE]
         /\ envChecked' = [k \in Envs |-> TRUE]
-        /\ UNCHANGED <<rpc, nmod, users, registered, lock, ipc>>
+        /\ UNCHANGED <<rpc, nmod, users, registered, lock, ivars>>
 
 \* any modification (restrict, insert, distances/memattr update) invalidates the caches
 Modify == /\ mstate \in {"loaded", "dirty"} /\ nmod < MaxModify
           /\ mstate' = "dirty" /\ nmod' = nmod + 1
           /\ distValid' = [d \in Dists |-> FALSE] /\ attrValid' = [a \in Attrs |-> FALSE]
-          /\ UNCHANGED <<envChecked, rpc, users, registered, lock, ipc>>
+          /\ UNCHANGED <<envChecked, rpc, users, registered, lock, ivars>>
 
 \* hwloc_topology_refresh()
 Refresh == /\ mstate = "dirty"
            /\ mstate' = "loaded"
            /\ distValid' = [d \in Dists |-> TRUE] /\ attrValid' = [a \in Attrs |-> TRUE]
-           /\ UNCHANGED <<envChecked, rpc, nmod, users, registered, lock, ipc>>
+           /\ UNCHANGED <<envChecked, rpc, nmod, users, registered, lock, ivars>>
 
 \* the readers are released; under the documented discipline only from a loaded/refreshed topology
 StartReaders == /\ mstate \in (IF Discipline THEN {"loaded"} ELSE {"loaded", "dirty"})
                 /\ mstate' = "reading"
-                /\ UNCHANGED <<distValid, attrValid, envChecked, rpc, nmod, users, registered, lock, ipc>>
+                /\ UNCHANGED <<distValid, attrValid, envChecked, rpc, nmod, users, registered, lock, ivars>>
 
 (* ---------------- readers ---------------- *)
 Valid(kind, x) == CASE kind = "dist" -> distValid[x] [] kind = "attr" -> attrValid[x] [] kind = "env" -> envChecked[x]
@@ -83,7 +100,7 @@ Indexes(kind) == CASE kind = "dist" -> Dists [] kind = "attr" -> Attrs [] kind =
 GetBegin(r) == /\ mstate = "reading" /\ rpc[r] = Idle
                /\ \E kind \in {"dist", "attr", "env"} : \E x \in Indexes(kind) :
                     rpc' = [rpc EXCEPT ![r] = <<IF Valid(kind, x) THEN "r" ELSE "w", kind, x>>]
-               /\ UNCHANGED <<mstate, distValid, attrValid, envChecked, nmod, users, registered, lock, ipc>>
+               /\ UNCHANGED <<mstate, distValid, attrValid, envChecked, nmod, users, registered, lock, ivars>>
 
 \* end of the section: a write section leaves the cache valid
 GetEnd(r) == /\ rpc[r][1] \in {"r", "w"}
@@ -92,34 +109,49 @@ GetEnd(r) == /\ rpc[r][1] \in {"r", "w"}
                   /\ attrValid' = IF s[1] = "w" /\ s[2] = "attr" THEN [attrValid EXCEPT ![s[3]] = TRUE] ELSE attrValid
                   /\ envChecked' = IF s[1] = "w" /\ s[2] = "env" THEN [envChecked EXCEPT ![s[3]] = TRUE] ELSE envChecked
              /\ rpc' = [rpc EXCEPT ![r] = Idle]
-             /\ UNCHANGED <<mstate, nmod, users, registered, lock, ipc>>
+             /\ UNCHANGED <<mstate, nmod, users, registered, lock, ivars>>
 
 ReaderDone(r) == /\ rpc[r] = Idle /\ mstate = "reading"
                  /\ rpc' = [rpc EXCEPT ![r] = Done]
-                 /\ UNCHANGED <<mstate, distValid, attrValid, envChecked, nmod, users, registered, lock, ipc>>
+                 /\ UNCHANGED <<mstate, distValid, attrValid, envChecked, nmod, users, registered, lock, ivars>>
 
 (* ---------------- independent topologies: the components registry ---------------- *)
-\* the registry step under the mutex (RegInit / RegFini) is in Registry.tla, shared with the trace specification
+\* the registry step under the mutex (RegInit / RegFini), the alphabet of calls and the balance law are in Registry.tla,
+\* shared with the generator of independent histories and the trace specification
 
-ILock(i, from, to) == /\ ipc[i] = from /\ lock = Free
-                      /\ lock' = i /\ ipc' = [ipc EXCEPT ![i] = to]
-                      /\ UNCHANGED <<mstate, distValid, attrValid, envChecked, rpc, nmod, users, registered>>
-IInit(i) == ILock(i, "new", "initlock")
-IInitBody(i) == /\ ipc[i] = "initlock" /\ lock = i
-                /\ users' = RegInit(users).users
-                /\ registered' = (registered \/ RegInit(users).edge)
-                /\ lock' = Free /\ ipc' = [ipc EXCEPT ![i] = "live"]
-                /\ UNCHANGED <<mstate, distValid, attrValid, envChecked, rpc, nmod>>
-IFini(i) == ILock(i, "live", "finilock")
-IFiniBody(i) == /\ ipc[i] = "finilock" /\ lock = i
-                /\ users' = RegFini(users).users
-                /\ registered' = (registered /\ ~RegFini(users).edge)
-                /\ lock' = Free /\ ipc' = [ipc EXCEPT ![i] = "gone"]
-                /\ UNCHANGED <<mstate, distValid, attrValid, envChecked, rpc, nmod>>
+\* thread i starts a call of net effect n (some op of RegOps, succeeding or failing: Nets); the return path it takes is one of the
+\* footprints of n
+Nets == {Net(op, ok) : op \in RegOps, ok \in BOOLEAN}
+ICall(i, n) ==
+  /\ ipc[i] = "idle"
+  /\ n = -1 => ilive[i] > 0                          \* DropOps: there is something to destroy
+  /\ n = 1 => ilive[i] < MaxLive                     \* TakeOps, succeeding
+  /\ \E fp \in Footprints(n) \cup (IF ~Balance /\ n = 0 THEN BrokenFootprints ELSE {}) :
+       /\ ifp' = [ifp EXCEPT ![i] = fp] /\ inet' = [inet EXCEPT ![i] = IF fp = <<>> THEN 0 ELSE n]
+       /\ ipc' = [ipc EXCEPT ![i] = IF fp = <<>> THEN "idle" ELSE "want"]
+  /\ UNCHANGED <<mstate, distValid, attrValid, envChecked, rpc, nmod, users, registered, lock, iheld, ilive>>
+\* hwloc_components_init / hwloc_components_fini: take the mutex ...
+ILock(i) == /\ ipc[i] = "want" /\ lock = Free
+            /\ lock' = i /\ ipc' = [ipc EXCEPT ![i] = "in"]
+            /\ UNCHANGED <<mstate, distValid, attrValid, envChecked, rpc, nmod, users, registered, ifp, inet, iheld, ilive>>
+\* ... and do the step; after the last step of the footprint the call returns and the thread owns inet[i] more topologies.
+\* Between the two steps of <<1, -1>> the thread is in the body of the call (XML import / export, duplication into the
+\* shared-memory mapping) and needs the components registered although it may own no topology
+IStep(i) == /\ ipc[i] = "in" /\ lock = i
+            /\ LET d == Head(ifp[i])  r == IF d = 1 THEN RegInit(users) ELSE RegFini(users)  last == Len(ifp[i]) = 1 IN
+                 /\ users' = r.users
+                 /\ registered' = IF d = 1 THEN registered \/ r.edge ELSE registered /\ ~r.edge
+                 /\ iheld' = [iheld EXCEPT ![i] = @ + d]
+                 /\ ifp' = [ifp EXCEPT ![i] = Tail(@)]
+                 /\ ipc' = [ipc EXCEPT ![i] = IF last THEN "idle" ELSE "want"]
+                 /\ ilive' = [ilive EXCEPT ![i] = IF last THEN @ + inet[i] ELSE @]
+                 /\ inet' = [inet EXCEPT ![i] = IF last THEN 0 ELSE @]
+            /\ lock' = Free
+            /\ UNCHANGED <<mstate, distValid, attrValid, envChecked, rpc, nmod>>
 
 Next == \/ Load \/ Modify \/ Refresh \/ StartReaders
         \/ \E r \in Readers : GetBegin(r) \/ GetEnd(r) \/ ReaderDone(r)
-        \/ \E i \in Indep : IInit(i) \/ IInitBody(i) \/ IFini(i) \/ IFiniBody(i)
+        \/ \E i \in Indep : ILock(i) \/ IStep(i) \/ \E n \in Nets : ICall(i, n)
 Spec == Init /\ [][Next]_vars
 
 (* ---------------- properties ---------------- *)
@@ -134,12 +166,20 @@ NoRace == \A r1, r2 \in Readers :
             (r1 # r2 /\ InSection(r1) /\ InSection(r2) /\ rpc[r1][2] = rpc[r2][2] /\ rpc[r1][3] = rpc[r2][3])
               => (rpc[r1][1] = "r" /\ rpc[r2][1] = "r")
 
-\* the registry: registered iff someone uses it (outside the critical section), and every live thread sees it registered
+\* the registry: registered iff someone uses it (outside the critical section); the count is the number of references held;
+\* NO INTERFERENCE: a thread that holds a reference - it owns a topology, or it is in the body of a call that took the registry -
+\* finds the components registered whatever the other threads did with their own topologies; and the BALANCE LAW: between
+\* calls a thread holds exactly one reference per topology it owns
+RECURSIVE SumOver(_, _)
+SumOver(f, S) == IF S = {} THEN 0 ELSE LET x == CHOOSE x \in S : TRUE IN f[x] + SumOver(f, S \ {x})
 RegistryOK == /\ lock = Free => (registered <=> users > 0)
-              /\ users = Cardinality({i \in Indep : ipc[i] \in {"live", "finilock"}})
-              /\ \A i \in Indep : ipc[i] = "live" => registered
+              /\ users = SumOver(iheld, Indep)
+              /\ \A i \in Indep : iheld[i] > 0 => registered
+              /\ \A i \in Indep : ipc[i] = "idle" => iheld[i] = ilive[i]
+              /\ \A i \in Indep : iheld[i] >= 0
               /\ users >= 0
 
 TypeOK == /\ mstate \in {"init", "loaded", "dirty", "reading"}
           /\ lock \in Indep \cup {Free}
+          /\ \A i \in Indep : ipc[i] \in {"idle", "want", "in"} /\ ilive[i] \in 0..MaxLive /\ (ipc[i] = "idle" <=> ifp[i] = <<>>)
 =============================================================================
